@@ -345,6 +345,12 @@ impl Engine for C04 {
                 return Err(format!("{crash_desc}: content area invalid: {}", bad.join("; ")));
             }
             if let Op::Write(w) = &vstep.op {
+                // (a step of the harness inside the victim: another writer stored the pool's next value)
+                if (w.aged_hours != 0 || w.crowd > 0) && w.streamed() {
+                    let other = crate::exec::other_blob(&ctx, w.blob);
+                    let o = (Algo::Sha256, crate::blob::hexs(&crate::blob::digest_raw(Algo::Sha256, &other)));
+                    model.adopt_content(&ctx, &o);
+                }
                 let algo = if matches!(w.entry, WEntry::OneShot | WEntry::Create) { Algo::Sha256 } else { w.algo };
                 let addr = Model::addr_of(&ctx, AddrRef { algo, blob: w.blob });
                 model.adopt_content(&ctx, &addr);
